@@ -316,19 +316,40 @@ def gen_maze(r, avoid, idx):
             ops.append(["raw", filler(r, r.choice([2, 4, 8])).hex()])
         ops.append(["raw", (c_jr(sub_rd[k]) if r.random() < 0.5 else jalr(0, sub_rd[k])).hex()])
         units.append((S(k), ops))
-    # physical order and placement
+    # physical order and placement: mostly topological (near jumps), sometimes fully shuffled
     order = list(range(len(units)))
-    r.shuffle(order)
-    if r.random() < 0.5:        # keep the entry first sometimes
-        order.remove(0)
-        order.insert(0, 0)
+    style = r.random()
+    if style < 0.25:
+        r.shuffle(order)
+    else:
+        subs = order[nblocks:]
+        order = order[:nblocks]
+        for _ in range(r.randrange(0, 2 + nblocks // 2)):
+            a = r.randrange(len(order))
+            b = min(len(order) - 1, a + r.choice([1, 1, 2, 3]))
+            order[a], order[b] = order[b], order[a]
+        for u in subs:
+            order.insert(r.randrange(len(order) + 1), u)
     objs = [{"code": [], "code2": []} for _ in range(nobj)]
-    place = {}
+    first = r.choice(["code", "code2"])          # which code section comes first when they get images of their own
+    second = "code2" if first == "code" else "code"
+    bridge = None
+    if two_code and r.random() < 0.6:
+        # a direct jump from the end of `first` into the start of `second` (cross-image jump near the boundary)
+        cands = [(a, ops[-1][1]) for a, (nm, ops) in enumerate(units) if ops[-1][0] == "cb"]
+        names = {nm: k for k, (nm, _) in enumerate(units)}
+        cands = [(a, names[t]) for a, t in cands if t in names and names[t] != a]
+        if cands:
+            bridge = r.choice(cands)
     for u in order:
+        if bridge and u in bridge:
+            continue
         oi = r.randrange(nobj)
         sec = "code2" if (two_code and r.random() < 0.35) else "code"
         objs[oi][sec].append(u)
-        place[u] = (oi, sec)
+    if bridge:
+        objs[nobj - 1][first].append(bridge[0])
+        objs[0][second].insert(0, bridge[1])
     boundary = 0
     objops = []
     for oi in range(nobj):
@@ -338,16 +359,16 @@ def gen_maze(r, avoid, idx):
             if not us:
                 continue
             ops.append(["sec", sec])
-            if r.random() < 0.3:
+            if r.random() < 0.3 and not (bridge and sec == second and oi == 0):
                 ops.append(["raw", filler(r, r.choice([2, 4, 6, 10])).hex()])
             for n, u in enumerate(us):
                 name, uops = units[u]
                 ops += uops
                 if n + 1 < len(us):
                     k = r.random()
-                    if k < 0.55:
+                    if k < 0.62:
                         pad = r.choice([0, 0, 2, 4, 8, 20, 64, 200])
-                    elif k < 0.8:
+                    elif k < 0.85:
                         # aim the last direct jump of this unit at the c.j boundary if it targets the next unit
                         nxt = units[us[n + 1]][0]
                         pad = r.choice([0, 600, 1500, 2100, 2600])
@@ -359,6 +380,16 @@ def gen_maze(r, avoid, idx):
                                 boundary += 1
                                 break
                             tail += ops_size([op])
+                        else:
+                            # ... or the first direct jump/call of the next unit at this unit (backward)
+                            head = 0
+                            for op in units[us[n + 1]][1]:
+                                if op[0] in ("cb", "cbl") and op[-1] == name:
+                                    want = r.choice([2040, 2044, 2046, 2048, 2050, 2052, 2048, 2050])
+                                    pad = max(0, want - ops_size(uops) - head)
+                                    boundary += 1
+                                    break
+                                head += ops_size([op])
                     else:
                         pad = r.choice([1000, 1800, 1980, 2030, 2040, 2044, 2050, 2100, 2500, 3000])
                     pad -= pad % 2
@@ -387,7 +418,8 @@ def gen_maze(r, avoid, idx):
                 sizes[cur] = (sizes.get(cur, 0) + 3) // 4 * 4
             elif cur is not None:
                 sizes[cur] = sizes.get(cur, 0) + ops_size([op]) + (3 if op[0] == "align" else 0)
-    lay = gen_layout(r, two_code and "code2" in sizes, avoid, sizes=sizes)
+    lay = gen_layout(r, two_code and "code2" in sizes and "code" in sizes, avoid, sizes=sizes, first=first,
+                     bridge=(units[bridge[0]][0], units[bridge[1]][0]) if bridge else None, objops=objops)
     inputs = [r.randrange(0, 1 << 10) for _ in range(3)] + [0]
     return {"kind": "maze", "index": idx, "objects": objops, "globals": globals_, "layout": lay, "entry": B(0),
             "inputs": inputs, "aimed_at_boundary": boundary, "features": {"two_code": two_code, "nobj": nobj,
@@ -395,7 +427,53 @@ def gen_maze(r, avoid, idx):
                                                                            "t0_link": T0 in sub_rd}}
 
 
-def gen_layout(r, two_code, avoid, data_name="data", sizes=None):
+def section_map(objops):
+    """{section: {"size": n, "labels": {name: offset}, "jumps": [(offset, target)]}} of the merged sections
+    (every object's contribution starts 4-aligned)"""
+    out = {}
+    for ops in objops:
+        cur = None
+        for op in ops:
+            if op[0] == "sec":
+                cur = out.setdefault(op[1], {"size": 0, "labels": {}, "jumps": []})
+                cur["size"] = (cur["size"] + 3) // 4 * 4
+            elif cur is None:
+                continue
+            elif op[0] == "label":
+                cur["labels"][op[1]] = cur["size"]
+            elif op[0] == "align":
+                cur["size"] = (cur["size"] + op[1] - 1) // op[1] * op[1]
+            else:
+                if op[0] in ("cb", "cbl"):
+                    cur["jumps"].append((cur["size"], op[-1]))
+                cur["size"] += ops_size([op])
+    return out
+
+
+def risky_cross_image(sm, addr):
+    """A relaxable jump between two images whose distance can leave the c.j range once holes are punched:
+    shrinkable before (-2048 <= d <= 2047) and, with k_s holes in front of the site and k_t in front of the
+    target, d + 2 k_s > 2046 or d - 2 k_t < -2048 (upper bounds for the hole counts)."""
+    where = {}
+    for sec, m in sm.items():
+        for name, off in m["labels"].items():
+            where[name] = (sec, off)
+    for sec, m in sm.items():
+        if sec not in addr:
+            continue
+        for n, (off, tgt) in enumerate(m["jumps"]):
+            if tgt not in where or where[tgt][0] == sec or where[tgt][0] not in addr:
+                continue
+            tsec, toff = where[tgt]
+            d = addr[tsec] + toff - (addr[sec] + off)
+            k_s = n
+            k_t = len([1 for o, _ in sm[tsec]["jumps"] if o < toff])
+            if -2048 <= d <= 2047 and (d + 2 * k_s > 2046 or d - 2 * k_t < -2048):
+                return True
+    return False
+
+
+def gen_layout(r, two_code, avoid, data_name="data", sizes=None, first="code", bridge=None, objops=None):
     """memories as [name, location, size, [section names]]"""
     sizes = sizes or {}
     base = r.choice([0x1000, 0x4000, 0x10000, 0x20000, 0x7000]) + r.choice([0, 0, 0x100, 0x40])
@@ -404,7 +482,38 @@ def gen_layout(r, two_code, avoid, data_name="data", sizes=None):
     big = 0x10000
     while big < 2 * sum(sizes.values()) + 0x1000:
         big *= 2
-    if not two_code:
+    shared = None
+    if F_ALIGN in avoid and objops and r.random() < 0.45:
+        # sections sharing a memory are only generated when the number of jumps that will be shortened in front
+        # of every following section is even (prediction from the distances before relaxation; the judge discards
+        # the case if the prediction was wrong)
+        sm = section_map(objops)
+        orders = [["code", data_name]] if not two_code else [["code", "code2"], ["code2", "code"],
+                                                              ["code", "code2", data_name]]
+        order = r.choice(orders)
+        if all(x in sm for x in order):
+            addr, cur = {}, base
+            for x in order:
+                cur = (cur + 3) // 4 * 4
+                addr[x] = cur
+                cur += sm[x]["size"]
+            rest = [x for x in sm if x not in order]
+            for k, x in enumerate(rest):
+                addr[x] = base + 0x80000 + k * 0x20000
+            holes = predict_holes(sm, addr)
+            pre = 0
+            ok = True
+            for x in order[:-1]:
+                pre += holes.get(x, 0)
+                if pre % 2:
+                    ok = False
+            if ok and sum(holes.get(x, 0) for x in order[:-1]) > 0:
+                shared = {"order": order, "holes": holes, "rest": rest, "addr": addr}
+    if shared:
+        mems = [["flash", base, 4 * big, shared["order"]]]
+        for x in shared["rest"]:
+            mems.append(["m_" + x, shared["addr"][x], big, [x]])
+    elif not two_code:
         if shape < 0.4:
             mems = [["flash", base, big, ["code"]], ["ram", base + 0x40000, big, [data_name]]]
         elif shape < 0.7 and F_ALIGN not in avoid:
@@ -423,14 +532,49 @@ def gen_layout(r, two_code, avoid, data_name="data", sizes=None):
             mems = [["flash", base, 3 * big, ["code", "code2", data_name]]]
         else:
             # two code images a few KiB apart: cross-image jumps near the boundary
-            first, second = ("code", "code2") if r.random() < 0.5 else ("code2", "code")
+            second = "code2" if first == "code" else "code"
             gap = (sizes.get(first, 0x800) + r.choice([0, 0, 4, 16, 64, 256, 1024, 4096]) + 15) // 16 * 16
+            if bridge and objops:
+                sm = section_map(objops)
+                js = [o for o, t in sm.get(first, {}).get("jumps", []) if t == bridge[1]]
+                to = sm.get(second, {}).get("labels", {}).get(bridge[1])
+                if js and to is not None:
+                    want = r.choice([2046, 2046, 2044, 2042, 2040, 2036, 2048, 2050, 2030, 2020])
+                    if F_XIMG in avoid:      # stay clear of the window in which holes in front push it over
+                        want = r.choice([2048, 2050, 2060, 2046 - 2 * len(sm[first]["jumps"]) - 2])
+                    g = js[-1] + want - to
+                    if g >= sizes.get(first, 0) and g % 4 == 0:
+                        gap = g
+            if F_XIMG in avoid and objops:
+                for _ in range(8):
+                    if not risky_cross_image(section_map(objops), {first: base, second: base + gap}):
+                        break
+                    gap += 0x1000
             mems = [["m1", base, gap, [first]], ["m2", base + gap, 2 * big, [second]],
                     ["ram", base + 0x80000, big, [data_name]]]
             if r.random() < 0.3:
                 mems[0], mems[1] = mems[1], mems[0]
     return {"memories": [{"name": n, "location": loc, "size": size, "inputs": [["section", s] for s in secs]}
-                         for n, loc, size, secs in mems], "entry": None}
+                         for n, loc, size, secs in mems], "entry": None,
+            "predicted_holes": shared["holes"] if shared else None}
+
+
+def predict_holes(sm, addr):
+    """{section: number of cb/cbl jumps whose distance before relaxation lies in [-2048, 2047]}"""
+    where = {}
+    for sec, m in sm.items():
+        for name, off in m["labels"].items():
+            where[name] = (sec, off)
+    out = {}
+    for sec, m in sm.items():
+        n = 0
+        for off, tgt in m["jumps"]:
+            if tgt in where and sec in addr and where[tgt][0] in addr:
+                d = addr[where[tgt][0]] + where[tgt][1] - (addr[sec] + off)
+                if -2048 <= d <= 2047:
+                    n += 1
+        out[sec] = n
+    return out
 
 
 # ---------------------------------------------------------------------------
@@ -510,7 +654,7 @@ def build_maze_objects(case):
 
 
 def gen_c(r, idx, avoid):
-    nfun = r.choice([3, 4, 5, 6, 8])
+    nfun = r.choice([3, 4, 5, 6, 8, 10, 12])
     glob = ["int g%d = %d;" % (i, r.randrange(-50, 50)) for i in range(3)]
     glob.append("int tab[8] = {%s};" % ", ".join(str(r.randrange(-9, 99)) for _ in range(8)))
     glob.append("int out[4];")
@@ -568,9 +712,15 @@ def gen_c(r, idx, avoid):
 
 
 def build_c_objects(case):
+    """Compile once (ppci's riscv code generation is not deterministic between two compilations in one process,
+    C30) and hand out copies of the same object files to both links."""
     from ppci.api import cc
+    from vlib import objgen
 
-    return [cc(io.StringIO(s), "riscv:rvc", opt_level=case["opt"]) for s in case["sources"]]
+    if "_specs" not in case:
+        objs = [cc(io.StringIO(s), "riscv:rvc", opt_level=case["opt"]) for s in case["sources"]]
+        case["_specs"] = [objgen.obj_to_spec(o) for o in objs]
+    return [objgen.build_object(s) for s in case["_specs"]]
 
 
 # ---------------------------------------------------------------------------
@@ -870,6 +1020,8 @@ def structural(case, plain, relaxed, mon):
                 return None
     for su in plain.sections:
         sr = relaxed.get_section(su.name)
+        if sr.address < su.address:
+            ob["following_section_moved"] += 1
         if sr.address > su.address:
             mon.violation("section %s moved up from %#x to %#x" % (su.name, su.address, sr.address), case)
             return None
@@ -966,12 +1118,15 @@ class Mon:
                          "shortened_executed": 0, "not_shrunk_out_of_range": 0, "cross_section_jumps": 0,
                          "near_boundary_jumps": 0, "holes_per_section": {}, "sites_checked": 0,
                          "llvm_lines_compared": 0, "two_code_images": 0, "pairs_without_relaxation": 0,
-                         "relaxed_link_raised": 0, "aimed_at_boundary": 0, "features": {}}
+                         "relaxed_link_raised": 0, "aimed_at_boundary": 0, "features": {},
+                         "shared_memory_pairs": 0, "following_section_moved": 0}
 
     def violation(self, summary, case):
+        self.flagged = (case["kind"], case["index"])
         if len(self.viol) < 5:
             self.viol.append({"summary": "%s %d: %s" % (case["kind"], case["index"], summary),
-                              "case": {"case": case}, "replay_spec": None})
+                              "case": {"case": {k: v for k, v in case.items() if k != "_specs"}},
+                              "replay_spec": None})
 
     def disc(self, why):
         self.discarded[why] = self.discarded.get(why, 0) + 1
@@ -990,6 +1145,14 @@ def judge_case(case, mon):
         mon.violation("the link with relaxation raises %s: %s, the link without relaxation succeeds" % (
             type(relaxed).__name__, str(relaxed)[:120]), case)
         return
+    pred = case["layout"].get("predicted_holes")
+    if pred:
+        for name, n in pred.items():
+            a, b = plain.get_section(name), relaxed.get_section(name)
+            if a.size - b.size != 2 * n:
+                mon.disc("hole-prediction-wrong")      # the case contains the construct the open finding avoids
+                return
+        ob["shared_memory_pairs"] += 1
     st = structural(case, plain, relaxed, mon)
     if st is None:
         return
@@ -1002,10 +1165,10 @@ def judge_case(case, mon):
             ob["features"][k] = ob["features"].get(k, 0) + 1
     ob["aimed_at_boundary"] += case.get("aimed_at_boundary", 0)
     ex = behavioural(case, plain, relaxed, st, mon)
-    if mon.viol and mon.viol[-1]["case"]["case"] is case:
+    if getattr(mon, "flagged", None) == (case["kind"], case["index"]):
         return
     if st["total"] > 0 and ex:
-        mon.hashes.add(h(case))
+        mon.hashes.add(h({k: v for k, v in case.items() if k != "_specs"}))
     # llvm cross-check jobs: code sections of both images
     for name, p in st["psi"].items():
         if p is None:
@@ -1032,11 +1195,11 @@ def llvm_crosscheck(mon):
         return
     jobs, total = [], 0
     for j in mon.llvm_jobs:            # the relaxed images first, bounded volume per shard
-        if j[3] == "r" and total < 100000:
+        if j[3] == "r" and total < 50000:
             jobs.append(j)
             total += len(j[4])
     for j in mon.llvm_jobs:
-        if j[3] == "u" and total < 130000:
+        if j[3] == "u" and total < 65000:
             jobs.append(j)
             total += len(j[4])
     dec = []
@@ -1108,4 +1271,80 @@ def run_shard(spec):
             "inconclusive": mon.inconclusive[:3]}
 
 
-PROBES = {}
+# ---------------------------------------------------------------------------
+# witness probes
+
+
+def _probe_case(objects, mems, globals_=()):
+    return {"kind": "maze", "index": 0, "objects": objects, "globals": list(globals_), "entry": None, "inputs": [],
+            "layout": {"memories": [{"name": n, "location": loc, "size": size, "inputs": [["section", x] for x in secs]}
+                                    for n, loc, size, secs in mems], "entry": None}}
+
+
+def probe_rd():
+    from vlib import rv32emu
+
+    ops = [["sec", "code"], ["cbl", T0, "sub"], ["raw", c_jr(RA).hex()], ["label", "sub"], ["raw", c_jr(T0).hex()]]
+    (su, plain), (sr, relaxed) = link_both(_probe_case([ops], [["flash", 0x1000, 0x1000, ["code"]]]))
+    if su != "ok" or sr != "ok":
+        return "link raised: %r %r" % (plain, relaxed)
+    iu = rv32emu.decode(bytes(plain.get_section("code").data[0:4]))
+    ir = rv32emu.decode(bytes(relaxed.get_section("code").data[0:4]))
+    if ir.mnemonic == "c.jal" and iu.rd == T0:
+        return "`jal t0, sub` (links through x5) is shortened to `c.jal sub`, which links through ra"
+    return None
+
+
+def probe_align():
+    ops = [["sec", "code"], ["cb", "l"], ["label", "l"], ["raw", c_jr(RA).hex()], ["raw", c_nop().hex()],
+           ["sec", "data"], ["raw", "11223344"]]
+    (su, plain), (sr, relaxed) = link_both(_probe_case([ops], [["flash", 0x1000, 0x1000, ["code", "data"]]]))
+    if su != "ok" or sr != "ok":
+        return "link raised: %r %r" % (plain, relaxed)
+    d = relaxed.get_section("data")
+    if d.address % d.alignment:
+        return "code (one shortened jump) and data in one memory: data (alignment %d) moves from %#x to %#x" % (
+            d.alignment, plain.get_section("data").address, d.address)
+    return None
+
+
+def probe_codedata():
+    ops = [["sec", "code"], ["cb", "l"], ["label", "l"], ["raw", jalr(0, RA).hex()], ["align", 4], ["dcd", "l"]]
+    (su, plain), (sr, relaxed) = link_both(_probe_case([ops], [["flash", 0x1000, 0x1000, ["code"]]]))
+    if su != "ok":
+        return "unrelaxed link raised %r" % (plain,)
+    if sr != "ok":
+        return "`j l; l: ret; align 4; dcd =l` links without relaxation, with relaxation link raises %s (the " \
+               "pointer word is no longer 4-aligned)" % type(relaxed).__name__
+    sec = relaxed.get_section("code")
+    off = [x.offset for x in relaxed.relocations if x.reloc_type == "absaddr32"][0]
+    if (sec.address + off) % 4:
+        return "aligned pointer word behind a shortened jump ends up at %#x" % (sec.address + off)
+    return None
+
+
+def probe_ximg():
+    from vlib import rv32emu
+
+    # first image: j near (shortened: a hole in front of the second jump), filler, j far -> `far` in the second image
+    # at distance 2046 before relaxation; afterwards the distance is 2048, outside the c.j range
+    body = [["sec", "code"], ["cb", "near"], ["label", "near"], ["raw", c_nop().hex() * 3], ["cb", "far"],
+            ["sec", "code2"], ["label", "far"], ["raw", jalr(0, RA).hex()]]
+    site = 4 + 6
+    (su, plain), (sr, relaxed) = link_both(_probe_case(
+        [body], [["m1", 0x1000, 0x100, ["code"]], ["m2", 0x1000 + site + 2046, 0x100, ["code2"]]], ["far"]))
+    if su != "ok":
+        return "unrelaxed link raised %r" % (plain,)
+    if sr != "ok":
+        return "cross-image jump: link with relaxation raises %s, without it succeeds" % type(relaxed).__name__
+    far = relaxed.get_symbol_value("far")
+    sec = relaxed.get_section("code")
+    pos = 2 + 6
+    ins = rv32emu.decode(bytes(sec.data[pos:pos + 4]), pc=sec.address + pos)
+    if ins.target != far:
+        return "`j far` 2046 bytes in front of a symbol in another image is shortened; a hole in front of it makes " \
+               "the distance 2048 and the c.j now jumps to %#x instead of %#x" % (ins.target, far)
+    return None
+
+
+PROBES = {F_RD: probe_rd, F_ALIGN: probe_align, F_CODEDATA: probe_codedata, F_XIMG: probe_ximg}
